@@ -3714,7 +3714,13 @@ def decode_signed_value(
     if not value:
         return None
 
-    value = utf8(value)
+    try:
+        value = utf8(value)
+        utf8(name)
+    except UnicodeEncodeError:
+        # A str holding a lone surrogate has no UTF-8 form: no signed
+        # value looks like that, and none was ever issued for such a name.
+        return None
     version = _get_version(value)
 
     if version < min_version:
@@ -3833,7 +3839,10 @@ def _decode_signed_value_v2(
 
 
 def get_signature_key_version(value: str | bytes) -> int | None:
-    value = utf8(value)
+    try:
+        value = utf8(value)
+    except UnicodeEncodeError:
+        return None
     version = _get_version(value)
     if version < 2:
         return None
